@@ -47,6 +47,8 @@ fn classify(msg: &str) -> &'static str {
         "C16.results-differ-from-sequential"
     } else if msg.contains("NOT-LINEARIZABLE") {
         "C16.shared-not-linearizable"
+    } else if msg.contains("MUST-FAIL-ACCEPTED") {
+        "C16.incompatible-connection-accepted"
     } else if msg.contains("TEMPLATE-MISMATCH") {
         "C16.cached-template-differs"
     } else {
@@ -80,7 +82,13 @@ fn reference_of(w: &Workload) -> Result<Outcome, String> {
         });
     });
     match r {
-        Ok(()) => slot.lock().unwrap().take().ok_or_else(|| "no reference outcome".to_string()),
+        Ok(()) => {
+            let o = slot.lock().unwrap().take().ok_or_else(|| "no reference outcome".to_string())?;
+            if o.post != expected_post() {
+                return Err(format!("harness: expected_post() does not describe this build: sequential post phase gave {:?}", o.post));
+            }
+            Ok(o)
+        }
         Err(p) => Err(format!("{} at {}", p.msg, p.site())),
     }
 }
@@ -285,8 +293,13 @@ fn main() {
             let n: u64 = arg(&args, "--n").and_then(|s| s.parse().ok()).unwrap_or(4);
             // one fixed workload that hammers the shared connection with arguments that spill out of the inline buffer
             println!("{}", json!([[["shared_append", 0, 100], ["shared_append", 0, 110], ["shared_inc", 0, 0], ["shared_append", 0, 90]], [["shared_append", 0, 95], ["shared_write", 0, 1], ["shared_append", 0, 99]], [["shared_read", 0, 0], ["shared_append", 0, 80], ["shared_append", 0, 100]]]));
+            // a second fixed one: every thread starts with the first negotiation of an interface (first use of every
+            // process-wide lazily initialised piece of state at the same time)
+            if n >= 2 {
+                println!("{}", json!([[["create_b", 0, 1], ["call", 0, 5]], [["create_b", 0, 2], ["call", 0, 6]], [["create_a_same", 0, 3], ["call", 0, 7]]]));
+            }
             let mut i = 0u64;
-            let mut printed = 1;
+            let mut printed = if n >= 2 { 2 } else { 1 };
             while printed < n {
                 let w = gen_workload(mix(seed, "simconc-miri", i), false);
                 i += 1;
